@@ -142,6 +142,8 @@ def _mon_restricted(case, tg, a, ref):
     okI = np.array_equal(np.asarray(tg.I), np.asarray(ref.I)[mask])
     case.check('restricted.index_subset', okI, nonvacuous=nonvac, window=d, got=list(map(int, np.asarray(tg.I)[:8])),
                want=list(map(int, np.asarray(ref.I)[mask][:8])))
+    case.check('restricted.same_main_time_unit', str(getattr(tg, 'main_time_unit', None)) == str(getattr(ref, 'main_time_unit', None)), window=d,
+               unit=str(getattr(tg, 'main_time_unit', None)), ref_unit=str(getattr(ref, 'main_time_unit', None)))
     if okI:
         case.check('restricted.arrays_consistent',
                    tg.T == int(mask.sum()) and all(p == q for p, q in zip(pd.DatetimeIndex(tg.timepoints), rtp[mask]))
@@ -172,6 +174,9 @@ def _mon_coarse(case, tg, a, ref):
                     or float(tg.Dt[k]) != float(np.asarray(ref.Dt)[pos[min(x)]]):
                 ok = False; break
     case.check('coarse.dt_sum_and_first_point', ok, window=d)
+    # the step lengths of the sub-grid are stated in the reference grid's main time unit - and the sub-grid says so
+    case.check('coarse.same_main_time_unit', str(getattr(tg, 'main_time_unit', None)) == str(getattr(ref, 'main_time_unit', None)), window=d,
+               unit=str(getattr(tg, 'main_time_unit', None)), ref_unit=str(getattr(ref, 'main_time_unit', None)))
 
 
 # -------------------------------------------------------------------------------------------------
